@@ -22,6 +22,8 @@ import traceback
 from collections import Counter
 
 ROOT = os.path.dirname(os.path.dirname(os.path.abspath(__file__)))
+# evidence and replay files of runs against a scratch worktree (mutation experiments) never land in /verif
+OUT = ROOT if os.path.realpath(os.environ.get("VERIF_REPO", "/repo")) == "/repo" else os.environ.get("VERIF_OUT", "/tmp/verif-scratch")
 MAX_REPORTED = 12          # replay files / VIOLATION lines per run
 MAX_SAMPLES = 6
 
@@ -104,17 +106,19 @@ def load_check(pid):
 def assert_repo():
     import sempler
     f = os.path.realpath(sempler.__file__)
-    if not f.startswith("/repo/"):
-        print("HARNESS-ERROR: sempler imported from %s, not from /repo" % f)
+    repo = os.path.realpath(os.environ.get("VERIF_REPO", "/repo")) + "/"
+    if not f.startswith(repo):
+        print("HARNESS-ERROR: sempler imported from %s, not from %s" % (f, repo))
         sys.exit(2)
 
 
 def repo_head():
     try:
         import subprocess
-        h = subprocess.run(["git", "-C", "/repo", "rev-parse", "--short", "HEAD"], capture_output=True,
+        repo = os.environ.get("VERIF_REPO", "/repo")
+        h = subprocess.run(["git", "-C", repo, "rev-parse", "--short", "HEAD"], capture_output=True,
                            text=True, timeout=10).stdout.strip()
-        d = subprocess.run(["git", "-C", "/repo", "status", "--porcelain", "--untracked-files=no"],
+        d = subprocess.run(["git", "-C", repo, "status", "--porcelain", "--untracked-files=no"],
                            capture_output=True, text=True, timeout=10).stdout.strip()
         return h + ("+dirty" if d else "")
     except Exception:
@@ -140,8 +144,8 @@ def load_findings():
 
 
 def write_evidence(pid, ev):
-    os.makedirs(os.path.join(ROOT, "evidence"), exist_ok=True)
-    path = os.path.join(ROOT, "evidence", pid + ".json")
+    os.makedirs(os.path.join(OUT, "evidence"), exist_ok=True)
+    path = os.path.join(OUT, "evidence", pid + ".json")
     tmp = path + ".tmp"
     with open(tmp, "w") as fh:
         fh.write(dumps(ev, indent=1))
@@ -268,7 +272,7 @@ def main(argv=None):
         return 2
 
     head = repo_head()
-    os.makedirs(os.path.join(ROOT, "replays", pid), exist_ok=True)
+    os.makedirs(os.path.join(OUT, "replays", pid), exist_ok=True)
     new, known_hit = [], {}
     for key, f in confirmed:
         k = next((k for k in known if k.get("sig") == f["sig"]), None)
@@ -284,7 +288,7 @@ def main(argv=None):
         if reported >= MAX_REPORTED or per_sig[f["sig"]] >= 3:
             continue
         per_sig[f["sig"]] += 1
-        path = os.path.join(ROOT, "replays", pid, key[:16] + ".json")
+        path = os.path.join(OUT, "replays", pid, key[:16] + ".json")
         with open(path, "w") as fh:
             fh.write(dumps({"property": pid, "kind": f["kind"], "case": f["case"], "sig": f["sig"],
                             "msg": f["msg"], "tier": tier, "repo_head": head,
